@@ -12,6 +12,7 @@ import numpy as np
 
 from ..core import describe, import_library
 from ..gen import engines as E
+from ..env import ENVIRONMENTS, Held, excusable, hostile, observe
 from ..probe import Probe, Reach
 from ..ref import norms as N
 from ..ref import wiring as W
@@ -310,12 +311,16 @@ def run(ctx):
         "out of domain (counted, not judged): engines that are not ready, duplicate term names in a variable (example `juggler`), Function terms over an output variable's value, custom operators",
     ]
     funcs = {"Engine.process": fl.Engine.process, "General.activate": fl.General.activate, "Rule.activate_with": fl.Rule.activate_with, "Rule.trigger": fl.Rule.trigger, "Consequent.modify": fl.Consequent.modify, "Aggregated.membership": fl.Aggregated.membership, "Activated.membership": fl.Activated.membership, "OutputVariable.defuzzify": fl.OutputVariable.defuzzify, "Antecedent.activation_degree": fl.Antecedent.activation_degree}
+    ctx.excuse = lambda mechanism, observed, note: excusable(observed)
     with Reach(funcs) as reach, Probe() as probe:
         mon = PipelineMonitor(ctx, fl)
         mon.install(probe)
+        held = Held(ctx)
         for i, rnd in ctx.cases("engines", nengines):
             general = i % 3 != 2
-            spec = E.gen_engine(rnd, activations=("General",) if general else tuple(c08.METHODS), d=rnd.choice([1, 3, 3]), allow_output_antecedent=general, free_weights=True, share_defuzzifier=True, routes=True, broken_rules=True, shared_rules=True, big_blocks=0.04 if general else 0)
+            spec = E.gen_engine(rnd, activations=("General",) if general else tuple(c08.METHODS), d=rnd.choice([1, 3, 3]), allow_output_antecedent=general, free_weights=True, share_defuzzifier=True, routes=True, broken_rules=True, shared_rules=True, big_blocks=0.04 if general else 0, odd_names=0.15)
+            if spec.get("odd_names"):
+                ctx.hit("workload:names that differ only in case, keywords as names")
             if spec.get("big"):
                 ctx.hit("workload:rule block with more than 32 rules")
             if any("same_rules_as" in rb or any("same_rule_as" in r for r in rb["rules"]) for rb in spec["blocks"]):
@@ -332,6 +337,11 @@ def run(ctx):
             rows = E.rows(rnd, spec, nrows)
             k = 0
             last_size = 0
+            held.clear()
+            # every tenth engine lives in a process whose state is not the default one (warnings are errors, the library logs at
+            # DEBUG, other NumPy print options); one in four is looked at between its steps
+            envname = ENVIRONMENTS[(i // 10) % len(ENVIRONMENTS)] if i % 10 == 7 else None
+            watched = rnd.random() < 0.25
             while k < len(rows):
                 size = 1 if (not general or rnd.random() < 0.5) else (last_size if (last_size > 1 and rnd.random() < 0.5) else rnd.choice([2, 3, 5]))
                 last_size = size
@@ -341,16 +351,26 @@ def run(ctx):
                 ctx.hit(f"input_form:{'single' if len(block) == 1 else 'batch'}:{form % (len(FORMS1) if len(block) == 1 else 5)}")
                 if set_inputs(engine, block, in_place=rnd.random() < 0.3, form=form):
                     ctx.hit("event:input arrays refilled in place")
-                try:
-                    engine.process()
-                except Exception:
-                    pass  # judged by the monitor
+                if watched:
+                    observe(fl, engine, rnd, ctx, None)
+                with hostile(fl, envname, ctx):
+                    try:
+                        engine.process()
+                    except Exception:
+                        pass  # judged by the monitor
+                # what the previous step handed out (values, fuzzy outputs, degrees) stays what it was
+                held.check("a later process()")
+                for ov in engine.output_variables:
+                    held.keep("OutputVariable.value", ov.value)
+                if watched:
+                    observe(fl, engine, rnd, ctx, held)
             if i < 2:
                 ctx.sample("engine", {"fll": describe(engine), "rows": rows[:3], "outputs": [ov.value for ov in engine.output_variables]})
         examples(ctx, fl)
         probe.report(ctx)
         reach.report(ctx)
     ctx.require("hook:Engine.process", "compare:rule degree", "compare:fuzzy output", "compare:output value", "compare:disabled output", "rows:batch", "rows:scalar", "glue:Activated.membership", "glue:Aggregated.membership")
+    ctx.require("workload:names that differ only in case, keywords as names", "law:values handed out earlier are left alone", "event:observer between steps", *[f"environment:{e}" for e in ENVIRONMENTS])
     ctx.require("workload:rule block with more than 32 rules", "workload:rule objects shared between blocks or repeated in a block", "piece:rule whose load was rejected", "piece:disabled rule block", "piece:disabled rule", "piece:disabled variable", "piece:weighted rule", "piece:output variable in antecedent")
     if ctx.nshards == 1:
         for m in c08.METHODS:
